@@ -3,6 +3,7 @@
   from clean text and parameter references.
 -/
 import Genshi.Lemmas.I18nRun
+import Genshi.Lemmas.Escape
 namespace Genshi.I18n
 open Genshi Genshi.Str
 
@@ -14,15 +15,16 @@ inductive Piece where
 def paramStr (n : Str) : Str := '%' :: '(' :: n ++ [')', 's']
 
 def Piece.str : Piece → Str
-  | .text s => s
+  | .text s => escBrackets s
   | .expr n _ _ => paramStr n
 
 def segStr : List Piece → Str
   | [] => []
   | p :: ps => p.str ++ segStr ps
 
-/-- text the message format does not touch: no bracket, no backslash, no percent sign -/
-def cleanText (s : Str) : Bool := s.all fun c => c != '[' && c != ']' && c != '\\' && c != '%'
+/-- text the message format can carry: no backslash, no percent sign (brackets are escaped by
+    `append` and unescaped by `yield_parts`) -/
+def cleanTextB (s : Str) : Bool := s.all fun c => c != '\\' && c != '%'
 
 /-- a parameter name `\w+` -/
 def wordName (n : Str) : Bool := !n.isEmpty && n.all isWord
@@ -50,25 +52,130 @@ theorem replaceGo_no_occ (p : Char) (ps new : Str) : ∀ s : Str, (∀ c ∈ s, 
 theorem replace_no_occ (p : Char) (ps new s : Str) (h : ∀ c ∈ s, c ≠ p) : Str.replace (p :: ps) new s = s := by
   simp [Str.replace, replaceGo_no_occ p ps new s h]
 
-theorem unescBrackets_clean (s : Str) (h : cleanText s = true) : unescBrackets s = s := by
-  have hb : ∀ c ∈ s, c ≠ '\\' := by
-    intro c hc
-    simp only [cleanText, List.all_eq_true, Bool.and_eq_true, bne_iff_ne, ne_eq] at h
-    exact (h c hc).1.2
-  unfold unescBrackets
-  rw [replace_no_occ '\\' ['['] ['['] s hb, replace_no_occ '\\' [']'] [']'] s hb]
+/-- what `escBrackets` does to one character -/
+def escChar (c : Char) : Str := if c = '[' then ['\\', '['] else if c = ']' then ['\\', ']'] else [c]
 
-theorem escBrackets_clean (s : Str) (h : cleanText s = true) : escBrackets s = s := by
-  have h1 : ∀ c ∈ s, c ≠ '[' := by
-    intro c hc
-    simp only [cleanText, List.all_eq_true, Bool.and_eq_true, bne_iff_ne, ne_eq] at h
-    exact (h c hc).1.1.1
-  have h2 : ∀ c ∈ s, c ≠ ']' := by
-    intro c hc
-    simp only [cleanText, List.all_eq_true, Bool.and_eq_true, bne_iff_ne, ne_eq] at h
-    exact (h c hc).1.1.2
+theorem escBrackets_flatMap (s : Str) : escBrackets s = s.flatMap escChar := by
   unfold escBrackets
-  rw [replace_no_occ '[' [] _ s h1, replace_no_occ ']' [] _ s h2]
+  rw [Genshi.Escape.replace_single, Genshi.Escape.replace_single, List.flatMap_assoc]
+  congr 1; funext c
+  by_cases h1 : c = '['
+  · subst h1; simp [escChar]
+  · by_cases h2 : c = ']'
+    · subst h2; simp [escChar]
+    · simp [escChar, h1, h2]
+
+theorem escBrackets_append (a b : Str) : escBrackets (a ++ b) = escBrackets a ++ escBrackets b := by
+  simp [escBrackets_flatMap]
+
+theorem escBrackets_nil : escBrackets [] = [] := by simp [escBrackets_flatMap]
+
+theorem escBrackets_isEmpty (s : Str) : (escBrackets s).isEmpty = s.isEmpty := by
+  cases s with
+  | nil => simp [escBrackets_nil]
+  | cons c cs =>
+    rw [escBrackets_flatMap]
+    simp only [List.flatMap_cons, escChar]
+    split
+    · simp
+    · split <;> simp
+
+theorem escBrackets_mem (s : Str) (c : Char) (h : c ∈ escBrackets s) : c ∈ s ∨ c = '\\' := by
+  rw [escBrackets_flatMap] at h
+  simp only [List.mem_flatMap] at h
+  obtain ⟨x, hx, hc⟩ := h
+  simp only [escChar] at hc
+  split at hc
+  · rename_i h1; subst h1
+    simp only [List.mem_cons, List.not_mem_nil, or_false] at hc
+    rcases hc with rfl | rfl
+    · exact Or.inr rfl
+    · exact Or.inl hx
+  · split at hc
+    · rename_i h2; subst h2
+      simp only [List.mem_cons, List.not_mem_nil, or_false] at hc
+      rcases hc with rfl | rfl
+      · exact Or.inr rfl
+      · exact Or.inl hx
+    · simp only [List.mem_singleton] at hc; subst hc; exact Or.inl hx
+
+/-- the first pass of `unescBrackets` over an escaped string -/
+def escClose (c : Char) : Str := if c = ']' then ['\\', ']'] else [c]
+
+theorem unesc_pass1 : ∀ (s : Str), (∀ c ∈ s, c ≠ '\\') →
+    replaceGo ['\\', '['] ['['] 0 (s.flatMap escChar) = s.flatMap escClose
+  | [], _ => by simp [replaceGo]
+  | c :: cs, h => by
+      have hc : c ≠ '\\' := h c (by simp)
+      have ih := unesc_pass1 cs (fun x hx => h x (by simp [hx]))
+      simp only [List.flatMap_cons]
+      by_cases h1 : c = '['
+      · subst h1
+        simp only [escChar, ↓reduceIte, escClose, List.cons_append, List.nil_append]
+        have : (['\\', '['] : Str).isPrefixOf ('\\' :: '[' :: List.flatMap escChar cs) = true := by
+          simp [List.isPrefixOf]
+        simp only [replaceGo, this, ↓reduceIte, List.length_cons, List.length_nil, Nat.reduceAdd, Nat.add_one_sub_one,
+          List.cons_append, List.nil_append]
+        rw [ih]
+        simp
+      · by_cases h2 : c = ']'
+        · subst h2
+          simp only [escChar, escClose, ↓reduceIte, List.cons_append, List.nil_append]
+          have hp1 : (['\\', '['] : Str).isPrefixOf ('\\' :: ']' :: List.flatMap escChar cs) = false := by
+            simp [List.isPrefixOf]
+          have hp2 : (['\\', '['] : Str).isPrefixOf (']' :: List.flatMap escChar cs) = false := by
+            simp [List.isPrefixOf]
+          have hne : (']' : Char) ≠ '[' := by decide
+          simp only [hne, ↓reduceIte, List.cons_append, List.nil_append, replaceGo, hp1, hp2, Bool.false_eq_true]
+          rw [ih]
+        · have hp : (['\\', '['] : Str).isPrefixOf (c :: List.flatMap escChar cs) = false := by
+            simp [List.isPrefixOf]; intro hh; exact absurd hh.symm hc
+          simp only [escChar, escClose, h1, h2, ↓reduceIte, List.cons_append, List.nil_append, replaceGo, hp,
+            Bool.false_eq_true]
+          rw [ih]
+
+theorem unesc_pass2 : ∀ (s : Str), (∀ c ∈ s, c ≠ '\\') →
+    replaceGo ['\\', ']'] [']'] 0 (s.flatMap escClose) = s
+  | [], _ => by simp [replaceGo]
+  | c :: cs, h => by
+      have hc : c ≠ '\\' := h c (by simp)
+      have ih := unesc_pass2 cs (fun x hx => h x (by simp [hx]))
+      simp only [List.flatMap_cons]
+      by_cases h2 : c = ']'
+      · subst h2
+        simp only [escClose, ↓reduceIte, List.cons_append, List.nil_append]
+        have : (['\\', ']'] : Str).isPrefixOf ('\\' :: ']' :: List.flatMap escClose cs) = true := by
+          simp [List.isPrefixOf]
+        simp only [replaceGo, this, ↓reduceIte, List.length_cons, List.length_nil, Nat.reduceAdd, Nat.add_one_sub_one,
+          List.cons_append, List.nil_append]
+        rw [ih]
+      · have hp : (['\\', ']'] : Str).isPrefixOf (c :: List.flatMap escClose cs) = false := by
+          simp [List.isPrefixOf]; intro hh; exact absurd hh.symm hc
+        simp only [escClose, h2, ↓reduceIte, List.cons_append, List.nil_append, replaceGo, hp, Bool.false_eq_true]
+        rw [ih]
+
+/-- **unescape ∘ escape** on text without backslash -/
+theorem unesc_esc (s : Str) (h : ∀ c ∈ s, c ≠ '\\') : unescBrackets (escBrackets s) = s := by
+  unfold unescBrackets
+  rw [escBrackets_flatMap]
+  simp only [Str.replace, List.isEmpty_cons, Bool.false_eq_true, ↓reduceIte]
+  rw [unesc_pass1 s h, unesc_pass2 s h]
+
+theorem cleanTextB_noBackslash (s : Str) (h : cleanTextB s = true) : ∀ c ∈ s, c ≠ '\\' := by
+  intro c hc
+  simp only [cleanTextB, List.all_eq_true, Bool.and_eq_true, bne_iff_ne, ne_eq] at h
+  exact (h c hc).1
+
+theorem cleanTextB_noPercent (s : Str) (h : cleanTextB s = true) : ∀ c ∈ s, c ≠ '%' := by
+  intro c hc
+  simp only [cleanTextB, List.all_eq_true, Bool.and_eq_true, bne_iff_ne, ne_eq] at h
+  exact (h c hc).2
+
+theorem esc_noPercent (s : Str) (h : cleanTextB s = true) : ∀ c ∈ escBrackets s, c ≠ '%' := by
+  intro c hc
+  rcases escBrackets_mem s c hc with h1 | h1
+  · exact cleanTextB_noPercent s h c h1
+  · subst h1; decide
 
 /-! ### the splitter -/
 
@@ -110,15 +217,14 @@ theorem readParam_clean (c : Char) (cs : Str) (h : c ≠ '%') : readParam (c :: 
   · rename_i heq; simp at heq; exact absurd heq.1 h
   · rfl
 
-theorem splitGo_clean : ∀ (s cur rest : Str), cleanText s = true →
+theorem splitGo_clean : ∀ (s cur rest : Str), (∀ c ∈ s, c ≠ '%') →
     splitGo 0 cur (s ++ rest) = splitGo 0 (s.reverse ++ cur) rest
   | [], cur, rest, _ => by simp
   | c :: cs, cur, rest, h => by
-      simp only [cleanText, List.all_cons, Bool.and_eq_true, bne_iff_ne, ne_eq] at h
       simp only [List.cons_append]
       rw [splitGo.eq_def]
-      simp only [readParam_clean c _ h.1.2]
-      have := splitGo_clean cs (c :: cur) rest (by simpa [cleanText] using h.2)
+      simp only [readParam_clean c _ (h c (by simp))]
+      have := splitGo_clean cs (c :: cur) rest (fun x hx => h x (by simp [hx]))
       simpa using this
 
 theorem splitGo_param (n rest cur : Str) (h : wordName n = true) :
@@ -137,12 +243,12 @@ theorem splitGo_param (n rest cur : Str) (h : wordName n = true) :
 /-- what the splitter makes of a segment: `cur` is the text read so far, reversed -/
 def splitSpec (cur : Str) : List Piece → List (Str ⊕ Str)
   | [] => [.inl cur.reverse]
-  | .text s :: ps => splitSpec (s.reverse ++ cur) ps
+  | .text s :: ps => splitSpec ((escBrackets s).reverse ++ cur) ps
   | .expr n _ _ :: ps => .inl cur.reverse :: .inr n :: splitSpec [] ps
 
 /-- the pieces are clean text and well-formed parameter references -/
 def Piece.ok : Piece → Bool
-  | .text s => cleanText s
+  | .text s => cleanTextB s
   | .expr n _ _ => wordName n
 
 theorem splitGo_segStr : ∀ (ps : List Piece) (cur : Str), ps.all Piece.ok = true →
@@ -151,7 +257,7 @@ theorem splitGo_segStr : ∀ (ps : List Piece) (cur : Str), ps.all Piece.ok = tr
   | .text s :: ps, cur, h => by
       simp only [List.all_cons, Bool.and_eq_true, Piece.ok] at h
       simp only [segStr, Piece.str, splitSpec]
-      rw [splitGo_clean s cur _ h.1]
+      rw [splitGo_clean (escBrackets s) cur _ (esc_noPercent s h.1)]
       exact splitGo_segStr ps _ h.2
   | .expr n i cm :: ps, cur, h => by
       simp only [List.all_cons, Bool.and_eq_true, Piece.ok] at h
@@ -176,32 +282,35 @@ def Piece.bound (vs : List (Str × TEvent)) : Piece → Prop
   | .text _ => True
   | .expr n i cm => lookupValue vs n = some (.expr i cm)
 
-theorem foldl_splitSpec (vs : List (Str × TEvent)) : ∀ (ps : List Piece) (cur : Str) (acc : List TEvent),
-    ps.all Piece.ok = true → (∀ p ∈ ps, p.bound vs) → cleanText cur = true →
-    (splitSpec cur ps).foldlM (ypStep vs) acc = .ok (acc ++ segEventsGo cur.reverse ps)
-  | [], cur, acc, _, _, hc => by
-      have hc' : cleanText cur.reverse = true := by simpa [cleanText] using hc
-      simp only [splitSpec, List.foldlM, ypStep, bind, Except.bind, pure, Except.pure, segEventsGo]
-      by_cases h : cur.reverse.isEmpty = true
+theorem foldl_splitSpec (vs : List (Str × TEvent)) : ∀ (ps : List Piece) (raw : Str) (acc : List TEvent),
+    ps.all Piece.ok = true → (∀ p ∈ ps, p.bound vs) → cleanTextB raw = true →
+    (splitSpec (escBrackets raw).reverse ps).foldlM (ypStep vs) acc = .ok (acc ++ segEventsGo raw ps)
+  | [], raw, acc, _, _, hc => by
+      simp only [splitSpec, List.foldlM, ypStep, bind, Except.bind, pure, Except.pure, segEventsGo, List.reverse_reverse,
+        escBrackets_isEmpty, unesc_esc raw (cleanTextB_noBackslash raw hc)]
+      by_cases h : raw.isEmpty = true
       · simp [h]
-      · simp [h, unescBrackets_clean _ hc']
-  | .text s :: ps, cur, acc, h, hb, hc => by
+      · simp [h]
+  | .text s :: ps, raw, acc, h, hb, hc => by
       simp only [List.all_cons, Bool.and_eq_true, Piece.ok] at h
       simp only [splitSpec, segEventsGo]
-      have := foldl_splitSpec vs ps (s.reverse ++ cur) acc h.2 (fun p hp => hb p (by simp [hp]))
-        (by simp only [cleanText, List.all_append, List.all_reverse, Bool.and_eq_true] at hc h ⊢; exact ⟨h.1, hc⟩)
-      simpa using this
-  | .expr n i cm :: ps, cur, acc, h, hb, hc => by
+      have := foldl_splitSpec vs ps (raw ++ s) acc h.2 (fun p hp => hb p (by simp [hp]))
+        (by simp only [cleanTextB, List.all_append, Bool.and_eq_true] at hc h ⊢; exact ⟨hc, h.1⟩)
+      rw [escBrackets_append, List.reverse_append] at this
+      exact this
+  | .expr n i cm :: ps, raw, acc, h, hb, hc => by
       simp only [List.all_cons, Bool.and_eq_true, Piece.ok] at h
-      have hc' : cleanText cur.reverse = true := by simpa [cleanText] using hc
       have hv : lookupValue vs n = some (.expr i cm) := hb (.expr n i cm) (by simp)
-      simp only [splitSpec, List.foldlM, ypStep, bind, Except.bind, pure, Except.pure, hv, segEventsGo]
-      have := foldl_splitSpec vs ps [] ((if cur.reverse.isEmpty = true then acc else acc ++ [.text (unescBrackets cur.reverse)]) ++ [.expr i cm])
+      simp only [splitSpec, List.foldlM, ypStep, bind, Except.bind, pure, Except.pure, hv, segEventsGo,
+        List.reverse_reverse, escBrackets_isEmpty, unesc_esc raw (cleanTextB_noBackslash raw hc)]
+      have := foldl_splitSpec vs ps [] ((if raw.isEmpty = true then acc else acc ++ [.text raw]) ++ [.expr i cm])
         h.2 (fun p hp => hb p (by simp [hp])) rfl
+      rw [escBrackets_nil] at this
+      simp only [List.reverse_nil] at this
       rw [this]
-      by_cases he : cur.reverse.isEmpty = true
+      by_cases he : raw.isEmpty = true
       · simp [he]
-      · simp [he, unescBrackets_clean _ hc', List.append_assoc]
+      · simp [he, List.append_assoc]
 
 /-- **yield_parts on a segment**: clean text comes back as (merged) TEXT events, every
     parameter reference as the expression bound to it -/
@@ -211,6 +320,7 @@ theorem yieldParts_segStr (vs : List (Str × TEvent)) (ps : List Piece) (h : ps.
   unfold splitParams
   rw [splitGo_segStr ps [] h]
   have := foldl_splitSpec vs ps [] [] h hb rfl
+  rw [escBrackets_nil] at this
   simpa [segEvents] using this
 
 end Genshi.I18n
